@@ -151,13 +151,15 @@ def _dummy_obs(state, *, rng=None):
 
 
 def make_record(rec_id, st_json, comps, space, rew=None, term=None, actions=None, via='gridworld',
-                fam='', fi=-1, fsize=-1, k=-1, enum_limit=2000, seeds=None, want=None):
-    """run the code on one state under every action; returns the record"""
+                fam='', fi=-1, fsize=-1, k=-1, enum_limit=2000, seeds=None, want=None, live_state=None, chain=None):
+    """run the code on one state under every action; returns the record.
+    live_state: the State object to question (a product of earlier calls, carrying whatever the code attached to it)
+    instead of a fresh one built from st_json"""
     actions = ACTIONS if actions is None else actions
     tf = _runner.get('T', comps)
     rf = _runner.get('R', rew) if rew is not None else None
     xf = _runner.get('X', term) if term is not None else None
-    state = proj.state_from_json(st_json)
+    state = live_state if live_state is not None else proj.state_from_json(st_json)
     env = None
     if via == 'gridworld':
         env = GridWorld(
@@ -221,9 +223,34 @@ def make_record(rec_id, st_json, comps, space, rew=None, term=None, actions=None
     mutated = proj.state_to_json(state) != _canon(st_json)
     return {'id': rec_id, 'want': list(want) if want is not None else ['C01', 'C08', 'C09', 'C10', 'C11', 'C12', 'DRIFT'], 'fam': fam, 'fi': fi, 'fsize': fsize, 'k': k, 'space': space,
             'comps': comps, 'rew': [] if rew is None else [rew], 'term': [] if term is None else [term],
-            'st': st_json, 'acts': acts, 'mutated': mutated}
+            'st': st_json, 'acts': acts, 'mutated': mutated, **({'chain': chain} if chain is not None else {})}
 
 
+
+
+def chain_records(kw):
+    """a walk on LIVE state objects: every state of the walk is questioned (all actions, every outcome) as the object the
+    previous call returned - memos, caches and attributes the code attached to it ride along - and the walk continues
+    with the outcome drawn by the walk's seed.  kw['walk'] = {'actions': [...], 'seeds': [...]}; record ids are
+    rec_id * 16 + t."""
+    import numpy as np
+
+    kw = dict(kw)
+    walk = kw.pop('walk')
+    base = kw.pop('rec_id')
+    start = kw.pop('st_json')
+    tf = _runner.get('T', kw['comps'])
+    live = proj.state_from_json(start)
+    out = []
+    for t, (aname, sd) in enumerate(zip(walk['actions'], walk['seeds'])):
+        st_json = proj.state_to_json(live)
+        out.append(make_record(rec_id=base * 16 + t, st_json=st_json, live_state=live,
+                               chain={'start': start, 'actions': walk['actions'][:t], 'seeds': walk['seeds'][:t]}, **kw))
+        try:
+            live = transition_with_copy(tf, live, Action[aname], rng=np.random.default_rng(sd))
+        except Exception:
+            break
+    return out
 
 
 def _canon(j):
@@ -237,20 +264,23 @@ def _worker(args):
     n_acts = 0
     nontrivial = set()
     raises = 0
+    n_recs = 0
     with open(shard_path, 'w') as f:
         for job in jobs:
             kw = dict(common)
             kw.update(job)
-            rec = make_record(**kw)
-            f.write(json.dumps(rec, separators=(',', ':')) + '\n')
-            for act in rec['acts']:
+            recs = chain_records(kw) if 'walk' in kw else [make_record(**kw)]
+            for rec in recs:
+              f.write(json.dumps(rec, separators=(',', ':')) + '\n')
+              for act in rec['acts']:
                 n_acts += 1
                 if act['outcome'] != 'ok':
                     raises += 1
                 for s in act['support']:
                     if True:
                         nontrivial.add(hash(json.dumps([rec['st'], act['a'], s], sort_keys=True)))
-    return len(jobs), n_acts, len(nontrivial), raises
+            n_recs += len(recs)
+    return n_recs, n_acts, len(nontrivial), raises
 
 
 def run_jobs(workdir, jobs: List[dict], common: dict, nshards=16, tag='steps'):
